@@ -63,6 +63,10 @@ pub fn unify(state: &mut TypeCheckerState, watchdog: &DynWatchdog) -> Result<()>
 
     // Then, we loop until we stop making progress.
     loop {
+        // Evidence that refers back to its own equivalence class can regenerate itself on
+        // every round, so we also have to notice when a round leaves the forest as it was.
+        let forest_before_round = forest.clone();
+
         // Create the set of new equalities.
         let mut all_equalities: HashSet<Equality> = HashSet::new();
         let mut all_judgements: HashSet<Judgement> = HashSet::new();
@@ -141,6 +145,22 @@ pub fn unify(state: &mut TypeCheckerState, watchdog: &DynWatchdog) -> Result<()>
         // If we didn't make any progress at any point, then we end the loop as we are
         // done with unification
         if !made_progress {
+            break;
+        }
+
+        // If a whole round changed nothing, every further round would do exactly the same
+        // work and unification would never end. The classes that still hold more than one
+        // expression carry evidence that cannot be reconciled, so they become conflicts.
+        if forest == forest_before_round {
+            for (ty_var, inferences) in forest.sets() {
+                if inferences.len() > 1 {
+                    let conflict = inferences
+                        .into_iter()
+                        .reduce(|l, r| l.conflict_with(r, "Typing evidence is cyclic"))
+                        .expect("We know there is more than one expression");
+                    forest.set_data(&ty_var, InferenceSet::from([conflict]));
+                }
+            }
             break;
         }
     }
